@@ -17,8 +17,11 @@ The module under test is always called `mod`; alias targets live in the single-f
 (loaded first by the same loader, so `from tgt import fn_a as a` is resolvable at merge time), while
 `from nowhere import zz as a` is not.
 
-Projection tags: annotations RT/ST/TT/OV1/OV2 and docstrings "rt doc"/"st doc"/"tgt doc" are mapped back to
-"R"/"S"/"T" so that the projected tree is over the spec's finite vocabulary.
+Taps also record: every merge_stubs call (exception, alias `_target` snapshots), every Alias.resolve_target call made
+below merger.py (site), every _merge_{module,class,function,attribute}_stubs call (step trace = variable `tr` of the spec).
+
+Projection tags: annotations RT/ST/TT/OV1/OV2 (stub overloads)/RV1/RV2 (runtime overloads) and docstrings "rt doc"/"st doc"/"tgt doc" are mapped back to
+"R"/"S"/"T" (overloads "O1","O2" / "Q1","Q2") so that the projected tree is over the spec's finite vocabulary.
 """
 from __future__ import annotations
 
@@ -39,7 +42,8 @@ def _fun(name: str, params: list, ann: str | None, ret: str | None, doc: str | N
     if overloads:
         for i in (1, 2):
             out.append(f"{ind}@typing.overload")
-            out.append(f"{ind}def {name}({', '.join(selfp + [f'{p}: OV{i}' for p in params])}) -> OV{i}: ...")
+            tag = "RV" if not stub else "OV"
+            out.append(f"{ind}def {name}({', '.join(selfp + [f'{p}: {tag}{i}' for p in params])}) -> {tag}{i}: ...")
     ps = ", ".join(selfp + [f"{p}: {ann}" if ann else p for p in params])
     head = f"{ind}def {name}({ps})" + (f" -> {ret}" if ret else "") + ":"
     if doc:
@@ -208,6 +212,7 @@ class Taps:
         self.merges = []          # per merge_stubs call: {before, after, exc}
         self.derefs = []          # per resolve_target call made under merge_stubs: {alias, site, ok}
         self.depth = 0
+        self.steps = []           # merger functions entered: {op, n, i} (stub object a / a.u ; module: n = i = '')
         self.alias_roots = []     # modules whose aliases are snapshotted
         self._install()
 
@@ -285,6 +290,19 @@ class Taps:
                     taps.derefs.append({"alias": alias.name, "fn": site[0], "line": site[1], "ok": ok})
 
         models_mod.Alias.resolve_target = resolve_target
+
+        # merge steps entered, in call order (trace validation against variable `tr` of Merge.tla)
+        for fname, op in (("_merge_module_stubs", "module"), ("_merge_class_stubs", "class"),
+                          ("_merge_function_stubs", "fun"), ("_merge_attribute_stubs", "attr")):
+            real_fn = getattr(merger_mod, fname)
+
+            def step(obj, stubs, _real=real_fn, _op=op):
+                rel = _rel_to_mod(stubs)
+                if rel is not None:
+                    taps.steps.append({"op": _op, "n": rel[0], "i": rel[1]})
+                return _real(obj, stubs)
+
+            setattr(merger_mod, fname, step)
         self._merger_lines = open(merger_file).read().splitlines()
 
     def site_of(self, d: dict) -> str:
@@ -318,6 +336,21 @@ class Taps:
         return out
 
 
+def _rel_to_mod(stubs):
+    """Names of a stub object below the module under test `mod` (('', '') for the module itself); None outside it."""
+    parts = []
+    cur = stubs
+    n = 0
+    while cur is not None and n < 8:
+        if cur.name == "mod" and not cur.is_alias and cur.kind.value == "module":
+            parts = list(reversed(parts)) + ["", ""]
+            return parts[0], parts[1]
+        parts.append(cur.name)
+        cur = cur.__dict__.get("_parent") if cur.is_alias else cur.parent
+        n += 1
+    return None
+
+
 def _safe_path(obj) -> str:
     parts = []
     cur = obj
@@ -332,7 +365,7 @@ def _safe_path(obj) -> str:
 # ---------------------------------------------------------------------------------------------------------
 # projection
 # ---------------------------------------------------------------------------------------------------------
-_TAG = {"RT": "R", "ST": "S", "TT": "T", "OV1": "O1", "OV2": "O2"}
+_TAG = {"RT": "R", "ST": "S", "TT": "T", "OV1": "O1", "OV2": "O2", "RV1": "Q1", "RV2": "Q2"}
 
 
 def _ann(x):
@@ -422,21 +455,27 @@ def run_case(griffe, taps: Taps, case: dict, base: str, *, stubs: bool = True) -
     write_files(base, files)
     taps.root = base
     taps.first = case["order"]
-    taps.merges, taps.derefs, taps.alias_roots = [], [], []
+    taps.merges, taps.derefs, taps.alias_roots, taps.steps = [], [], [], []
     loader = griffe.GriffeLoader(search_paths=[os.path.join(base, s) for s in lay["search"] if os.path.isdir(os.path.join(base, s))], allow_inspection=False)
     out = {"exc": "none", "merges": 0}
+    tgt = None
     try:
         tgt = loader.load("tgt", try_relative_path=False)
         taps.alias_roots = [tgt]
-        top = loader.load(lay["load"], try_relative_path=False, find_stubs_package=lay["stubs_pkg"])
-        mod = get_path(loader.modules_collection, lay["modpath"])
-        out["mod"] = project(mod)
-        out["file"] = "pyi" if str(mod.filepath).endswith(".pyi") else "py"
-        out["tgt"] = project(tgt)
-        _ = top
+        loader.load(lay["load"], try_relative_path=False, find_stubs_package=lay["stubs_pkg"])
     except Exception as exc:  # noqa: BLE001
         out["exc"] = type(exc).__name__
         out["exc_text"] = str(exc)[:200]
+    try:
+        # observe whatever the collection holds, also after load() raised
+        mod = get_path(loader.modules_collection, lay["modpath"])
+        out["file"] = "pyi" if str(mod.filepath).endswith(".pyi") else "py"
+        if out["exc"] == "none":
+            out["mod"] = project(mod)
+        if tgt is not None:
+            out["tgt"] = project(tgt)
+    except Exception as exc:  # noqa: BLE001
+        out["project_exc"] = repr(exc)[:200]
     finally:
         taps.root = None
     out["merges"] = len(taps.merges)
@@ -449,4 +488,18 @@ def run_case(griffe, taps: Taps, case: dict, base: str, *, stubs: bool = True) -
                 resolved[path] = t
     out["resolved_in_merge"] = resolved
     out["derefs"] = [dict(d, site=taps.site_of(d)) for d in taps.derefs]
+    out["steps"] = list(taps.steps)
     return out
+
+
+def load_side(griffe, taps: Taps, case: dict, base: str, side: str) -> dict:
+    """Load ONE side of the case alone (no merge happens): the 'before' trees preR / preS of Merge.tla."""
+    text = render_side(case, side)
+    files = {"sp/tgt.py": render_tgt(), ("sp/mod.py" if side == "rt" else "sp/mod/__init__.pyi"): text}
+    write_files(base, files)
+    taps.root = None
+    taps.merges, taps.derefs, taps.alias_roots = [], [], []
+    loader = griffe.GriffeLoader(search_paths=[os.path.join(base, "sp")], allow_inspection=False)
+    tgt = loader.load("tgt", try_relative_path=False)
+    mod = loader.load("mod", try_relative_path=False)
+    return {"mod": project(mod), "tgt": project(tgt), "merges": len(taps.merges)}
